@@ -22,8 +22,12 @@ CLAIMED = {
               "the cell's expression; the conversion loop gives every live cell a non-virtual volume under its own "
               "number or none when the expression is false; hence exactly-one ownership (exactly_one). The Lean model "
               "is compared with the code on every run (pot_complement, conversion loop, post-processing: canonical "
-              "volume terms) and the Lean reference semantics locates sample points in the written file. Not proved: "
-              "denotation preservation of remove_empty/unused_volumes (stated as a def)."),
+              "volume terms) and the Lean reference semantics locates sample points in the written file. The post-processing "
+              "(renumbering after de-duplication, remove_empty_volumes with its queue/rounds, remove_unused_volumes) is "
+              "proved to keep the denotation of every surviving non-virtual volume and to delete only volumes containing "
+              "no point (postProcess_preserves_partial, references to deleted volumes read as ∅). Not proved: that no "
+              "reference to a deleted volume is left (full-strength statement kept as a def; C08 checks it on every "
+              "written file)."),
         design_ref='§8 C01'),
     'C02': dict(
         technique='Lean 4 proof (polynomial identities + sign witness over an arbitrary ordered field, per card of the mnemonic table) + model↔code correspondence per card + Lean point monitor',
